@@ -15,9 +15,24 @@ for p in $(python3 -c "import json;print(' '.join(c['property_id'] for c in json
   LLVM_PROFILE_FILE="$S/raw/$p-%p.profraw" VERIF_WORKERS=3 VERIF_SCALE="$SCALE" VERIF_ROOT="$PWD" VERIF_OUT="$S/out" timeout 1500 "$S/../cov-target/release/verif" check "$p" quick 2>&1 | tail -1
 done
 "$T/llvm-profdata" merge -sparse "$S"/raw/*.profraw -o "$S/all.profdata"
-"$T/llvm-cov" report "$S/../cov-target/release/verif" -instr-profile="$S/all.profdata" --ignore-filename-regex='(\.cargo|rustc|/verif/sim)' 2>/dev/null \
-  | awk 'NR==1 || /^-/ || /TOTAL/ || /^(examples|packages)/ {printf "%-70s %10s %8s %8s %8s\n", $1, $(NF-5), $(NF-4), $(NF-3), ""}' | sed 's/ *$//' > coverage/summary.txt
 "$T/llvm-cov" export "$S/../cov-target/release/verif" -instr-profile="$S/all.profdata" --ignore-filename-regex='(\.cargo|rustc|/verif/sim)' -format=text 2>/dev/null > "$S/export.json"
+python3 - "$S/export.json" <<'PY' > coverage/summary.txt
+import json, sys
+d = json.load(open(sys.argv[1]))['data'][0]
+rows = []
+for f in d['files']:
+    n = f['filename']
+    if not n.startswith('/repo/'): continue
+    s = f['summary']
+    rows.append((n[6:], s['functions']['count'], s['functions']['covered'], s['lines']['count'], s['lines']['covered']))
+rows.sort()
+print(f"{'file':72} {'functions':>10} {'executed':>9} {'lines':>7} {'executed':>9} {'%':>6}")
+tf = te = tl = tc = 0
+for n, fc, fe, lc, le in rows:
+    print(f"{n:72} {fc:10} {fe:9} {lc:7} {le:9} {100.0*le/max(lc,1):6.1f}")
+    tf += fc; te += fe; tl += lc; tc += le
+print(f"{'TOTAL':72} {tf:10} {te:9} {tl:7} {tc:9} {100.0*tc/max(tl,1):6.1f}")
+PY
 python3 - "$S/export.json" <<'PY' > coverage/unexecuted_functions.txt
 import json, sys, collections
 d = json.load(open(sys.argv[1])); agg = {}
